@@ -24,6 +24,15 @@ CHECKS = {
     'C19': dict(engine=E1, technique='symbolic execution (CrossHair/z3): encode("<") vs encode(">") of one symbolic message against the reference byte map',
                 text='Bounded symbolic model checking: same length, scalars mirrored in place, all padding zero in both byte orders, for all values within F (Python codec; C++ part via llsym).',
                 note='Trusted: CrossHair+patches, z3, wirespec byte map. Asserted on paths where the LE image equals the reference (layout defects are C01).', ref='DESIGN 4 C19'),
+    'C04': dict(engine=E1, technique='symbolic execution (CrossHair/z3) of the real layout code (prophyc model.evaluate_sizes/calc_wire_stiffness; prophy struct_generator/union_generator/optional/array) on member types with symbolic size and alignment, vs the documented layout rules; one inductive step per member-form tuple',
+                text='Schema-symbolic bounded model checking ("Layer A"): for every tuple of member forms up to the bound, ALL member sizes (q*2^k) and alignments: computed size/alignment/kind/paddings equal the documented rules and satisfy the type invariant again (so nesting depth is unbounded); stiffness never lower than the reference.',
+                note='Trusted: CrossHair+patches (incl. patch 7: exact real model of int/2^k, justified by a QF_FP lemma discharged each run), z3, wirespec.abstract_struct_layout. Bounds: <=3 members symbolic (4 thorough, sampled), array extents 2,3. C++ constants are checked by the E2 checks on family F.', ref='DESIGN 4 C04'),
+    'C10': dict(engine=E1 + ' + ' + E3, technique='symbolic execution (CrossHair/z3) of one public-API operation with arbitrary arguments from an arbitrary valid message state, compared with a plain reference model; explicit 3-step toggle histories; one QF_FP z3 lemma for float range',
+                text='Inductive-step bounded model checking: state values, operation arguments (ints unbounded, other types by samples), indices and slice bounds are symbolic; accepted => observable state (attributes, len, iteration, discriminator, encode) equals the model; rejected => ProphyError / list-style IndexError, ValueError and state unchanged; post-state encodes.',
+                note='Trusted: CrossHair+patches, z3, the reference model in vf/apiharness.py. Bounds: array limit 3, indices in [-5,5] or None (quick: [-3,3]), API subfamily of 7 structs. Known findings listed in known_findings.json.', ref='DESIGN 4 C10'),
+    'C11': dict(engine=E1, technique='symbolic execution (CrossHair/z3) of copy_from / extend on two symbolic messages followed by one mutation of either side',
+                text='Bounded symbolic model checking: after b.copy_from(a) observable state and encoding equal, a unchanged, for all values/presence/arms/lengths within bounds; a later mutation of either message leaves the other untouched; same for elements copied by extend().',
+                note='Trusted: CrossHair+patches, z3. Bounds: 5 schemas (scalars/bytes, optionals incl. optional union, union in struct, scalar arrays, composite arrays), lengths <=3/2, one mutation.', ref='DESIGN 4 C11'),
 }
 
 PENDING = {}
